@@ -14,7 +14,7 @@ func init() {
 	register(&Def{
 		ID:    "C12",
 		Level: "exploration",
-		Rule: "bounded-exhaustive: from every root shape in {1,2,3 channels} x {(L,K): K<=bound} every operation sequence up to depth d over the alphabet {Alloc, Slice (all valid ranges), Append (every ordered pair of live views inside C03's domain, incl. self), AppendSample, SetSample (first/last position), Write, WriteStriped, channel-view SetSample}, at most 6 live views, each sequence re-executed from the root on the real code and compared with the Go-slice reference model after its last step (all views over length and capacity, all storages through the hook, address identity); " +
+		Rule: "bounded-exhaustive: from every root shape in {1,2,3 channels} x {(L,K): K<=bound} every operation sequence up to depth d over the alphabet {Alloc, Slice (all valid ranges), Append (every ordered pair of live views inside C03's domain, incl. self, plus operands with a partly filled last frame when the append fits the capacity), AppendSample, SetSample (first/last position), Write, WriteStriped, channel-view SetSample}, at most 6 live views, each sequence re-executed from the root on the real code and compared with the Go-slice reference model after its last step (all views over length and capacity, all storages through the hook, address identity); " +
 			"plus seeded random histories of 50..200 steps over larger shapes (<=8 channels, <=64 frames, <=12 live views with retirement) and six element types, checked after every step; " +
 			"distinct = distinct operation sequences (hash of the operation list incl. root shape) ; non-trivial = the sequence contains at least one mutating operation",
 		Assume: []string{"Append only inside the domain of C03 (aligned operands, no source overlapping the destination's spare capacity)", "Slice only with valid ranges (invalid ones are C02's subject)",
@@ -107,7 +107,7 @@ func (cw *c12world) enumerate(maxViews int, reduced bool, allocShape [2]int) []c
 			}
 		}
 		for ui, u := range w.Views {
-			if mon.AppendPre(v, u) {
+			if mon.AppendPreHistories(v, u) {
 				ops = append(ops, c12op{Kind: "append", V: vi, U: ui})
 			}
 		}
@@ -388,7 +388,7 @@ func runC12Random(c *core.Ctx) {
 				if rnd.Chance(1, 5) {
 					ui = vi
 				}
-				if !mon.AppendPre(v, w.Views[ui]) || w.Views[ui].M.Len > 512 {
+				if !mon.AppendPreHistories(v, w.Views[ui]) || w.Views[ui].M.Len > 512 {
 					o = c12op{Kind: "appendsample", V: vi}
 				} else {
 					o = c12op{Kind: "append", V: vi, U: ui}
